@@ -53,6 +53,16 @@ Theorem C19_bounded_callers : forall (parse : text -> option f64) ck b,
 Proof. exact callers_bounded. Qed.
 Print Assumptions C19_bounded_callers.
 
+(* in the numbers of the property: 2 s plus the part of the small margin that is
+   not reserved for scheduling noise (regenerated constants must stay within) *)
+Theorem C19_within_2s_plus_margin : forall (parse : text -> option f64) ck b,
+  let B := prop_timeout_ms + (small_margin_ms - slack_ms) in
+  time_le (snd (sensor_get_value parse (CmdSensorTimeoutS * 1000) CmdWaitDelayMs ck b)) B
+  /\ time_le (snd (fan_get_int parse (CmdFanTimeoutS * 1000) CmdWaitDelayMs ck b)) B
+  /\ time_le (snd (fan_set_pwm (CmdFanTimeoutS * 1000) CmdWaitDelayMs ck b)) B.
+Proof. exact callers_within_property_bound. Qed.
+Print Assumptions C19_within_2s_plus_margin.
+
 Theorem C19_callers_never_crash : forall (parse : text -> option f64) s1 s2 p T d b,
   let ck := check_file2 s1 s2 p in
   fst (sensor_get_value parse T d ck b) <> CvCrash
